@@ -23,6 +23,8 @@ structure Heap where
   prev : Nat → Nat
   /-- `&endItem`, the sentinel behind the last item (`_end.item`) -/
   endItem : Nat
+  /-- `_begin.item` -/
+  beginItem : Nat
 
 inductive Cell where
   | root : Cell
@@ -45,6 +47,7 @@ def setRight (h : Heap) (p v : Nat) : Heap := { h with right := upd1 h.right p v
 def setHeight (h : Heap) (p v : Nat) : Heap := { h with height := upd1 h.height p v }
 def setSlope (h : Heap) (p : Nat) (v : Int) : Heap := { h with slope := upd1 h.slope p v }
 def setValue (h : Heap) (p : Nat) (v : Int) : Heap := { h with value := upd1 h.value p v }
+def setBegin (h : Heap) (v : Nat) : Heap := { h with beginItem := v }
 def setNext (h : Heap) (p v : Nat) : Heap := { h with next := upd1 h.next p v }
 def setPrev (h : Heap) (p v : Nat) : Heap := { h with prev := upd1 h.prev p v }
 
